@@ -100,6 +100,9 @@ pub struct Scenario {
     pub gap_ack: bool,
     /// model receiver keeps answering retransmissions of the final block
     pub dally: bool,
+    /// receiver role: a file with other content already exists at the target path (overwrite)
+    #[serde(default)]
+    pub pre_existing: bool,
 }
 
 impl Scenario {
@@ -119,6 +122,7 @@ impl Scenario {
             after: After::Honest,
             gap_ack: true,
             dally: true,
+            pre_existing: false,
         }
     }
     pub fn nblocks(&self) -> u64 {
@@ -659,7 +663,16 @@ impl Env {
                     None => continue,
                 },
                 Sev::Error(code) => Some(refcodec::error(*code % 8, "injected")),
-                Sev::ErrorLong(code, n) => Some(refcodec::error(*code % 8, &"e".repeat((*n as usize).min(2000)))),
+                Sev::ErrorLong(code, n) => {
+                    // n characters; for odd n a mixture of 1-, 2- and 3-byte characters so that byte offsets fall inside characters
+                    let n = (*n as usize).min(2000);
+                    let msg: String = if n % 2 == 0 {
+                        "e".repeat(n)
+                    } else {
+                        (0..n).map(|i| if (i + n / 2) % 3 == 0 { '\u{e9}' } else if i % 5 == 0 { '\u{65e5}' } else { 'e' }).collect()
+                    };
+                    Some(refcodec::error(*code % 8, &msg))
+                }
                 Sev::Garbage(g) => Some(g.clone()),
                 Sev::Oack => Some(vec![0, 6, b'b', b'l', b'k', b's', b'i', b'z', b'e', 0, b'8', 0]),
                 Sev::StrayAck(n) => Some(refcodec::ack(*n)),
@@ -846,6 +859,11 @@ pub fn run(sc: &Scenario, dir: &Path) -> SimResult {
     let _ = std::fs::remove_file(&path);
     if sc.role == Role::Sender {
         std::fs::write(&path, &file).expect("write source file");
+    } else if sc.pre_existing {
+        // (under a file-size limit only an empty old file can be created)
+        if std::fs::write(&path, b"content of an older upload that is being overwritten, longer than most test files ........").is_err() {
+            let _ = std::fs::File::create(&path);
+        }
     }
     let nblocks = sc.nblocks();
     let cap = 64 * (nblocks + sc.script.len() as u64 + sc.fates.len() as u64 + 64);
